@@ -3,8 +3,8 @@ experienced history; steps are real transitions; interval; greedy policy."""
 import math
 import copy
 
-from sim.core import Violation, Inconclusive, RandomProxy, patched_random, close
-from sim.models import gen_mdp_spec, MDPView, make_mdp, sibling_mdp_spec
+from sim.core import Violation, Inconclusive, InjectedAbort, RandomProxy, patched_random, close
+from sim.models import gen_mdp_spec, MDPView, make_mdp, sibling_mdp_spec, rotated_probability_spec, update_model_in_place
 from sim.refsolve import game_W
 from sim.ctx import RunCtx, make_scheduler, gen_sched
 from sim import shrink as shr
@@ -45,13 +45,15 @@ def gen_case(rng, tier, idx):
     cfg = dict(learner=rng.choice(LEARNERS), episodes=rng.randint(1, 6) if rng.random() < 0.98 else 0, step_size=rng.choice((0, 0.1, 0.5, 1.0, 0.3)),
                rand_choose=rng.choice((0, 0.0, 0.1, 0.5, 1.0)), softmax_temp=temp, q0=q0, seed=rng.choice((0, 1, 7, 12345, None)),
                reentrant=rng.random() < 0.25, reuse=rng.randrange(1000) if rng.random() < 0.15 else None,
-               alias=rng.choice(('fresh', 'fresh', 'cached', 'shared', 'tuple')), explicit_lists=rng.random() < 0.15)
+               alias=rng.choice(('fresh', 'fresh', 'cached', 'shared', 'tuple')), explicit_lists=rng.random() < 0.15,
+               model_update=rng.random() < 0.12)
     plain = idx % 4 == 0     # fault-free baseline quarter
     sched = gen_sched(rng, ('P',) if plain else ('P', 'U', 'R', 'X'), thresholds=(0.5, float(cfg['rand_choose'])))
     if plain:
         sched['budget'] = rng.choice((200, 1000))
         cfg['reentrant'] = False
         cfg['reuse'] = None
+        cfg['model_update'] = False
     return dict(spec=spec, cfg=cfg, sched=sched)
 
 
@@ -71,7 +73,7 @@ def execute(case, script=None):
     ctx = RunCtx(PROP, view)
     ctx.W = game_W(view)
     ctx.declare_probes('episode_from_absorbing_start', 'bootstrap_from_absorbing', 'argmax_tie',
-                       'listener_reentry', 'step_size_one', 'learner_reused', 'no_seed_given', 'zero_episodes')
+                       'listener_reentry', 'step_size_one', 'learner_reused', 'no_seed_given', 'zero_episodes', 'rerun_after_abort', 'model_updated_in_place')
     sched = make_scheduler(case, script, ctx)
     try:
         return _execute(td, view, cfg, ctx, sched)
@@ -80,7 +82,17 @@ def execute(case, script=None):
 
 
 def _execute(td, view, cfg, ctx, sched):
-    mdp = make_mdp(view, ctx, alias=cfg.get('alias', 'fresh'), explicit_lists=cfg.get('explicit_lists', False))
+    rview = None
+    if cfg.get('model_update'):
+        rview = MDPView(rotated_probability_spec(view.spec))
+        if any(w == float('inf') for w in game_W(rview).values()):
+            rview = None          # the rotated model must stay proper, or its training run need not end
+    if rview is not None:
+        # fault F9 for models: the model keeps one distribution object per (state, action); it is first trained on with
+        # other probabilities, then updated IN PLACE to the probabilities of this workload, then trained on for real
+        mdp = make_mdp(rview, ctx, alias=cfg.get('alias', 'fresh'), explicit_lists=cfg.get('explicit_lists', False), stored_dists=True)
+    else:
+        mdp = make_mdp(view, ctx, alias=cfg.get('alias', 'fresh'), explicit_lists=cfg.get('explicit_lists', False))
     g = view.gamma
     alpha, eps, temp = cfg['step_size'], cfg['rand_choose'], cfg['softmax_temp']
     q0f, q0arg = q0_fn(cfg, view)
@@ -231,7 +243,29 @@ def _execute(td, view, cfg, ctx, sched):
     with patched_random([td], proxy):
         try:
             learner = cls(**kwargs)
+            if rview is not None:
+                sched.fire('F9_model_updated_in_place')
+                ctx.probe('model_updated_in_place')
+                state['main'] = False
+                W0, ctx.W = ctx.W, game_W(rview)
+                cls(**kwargs).train_on(mdp)
+                ctx.W = W0
+                update_model_in_place(mdp, view)
+                state['main'] = True
             sib = sibling_mdp_spec(view.spec, cfg['reuse']) if cfg.get('reuse') is not None else None
+            if sib is not None and cfg['reuse'] % 2 == 1:
+                # fault F6: a first run on the SAME problem and objects is aborted by an exception thrown from a model call-back
+                # (the library analogue of a crash); the real run then uses the same learner and model objects
+                sib = None
+                ctx.probe('rerun_after_abort')
+                state['main'] = False
+                hook = ctx.abort_after(1 + cfg['reuse'] % 60)
+                try:
+                    learner.train_on(mdp)
+                except InjectedAbort:
+                    pass
+                ctx.disarm(hook)
+                state['main'] = True
             if sib is not None:
                 # fault F5: the same learner object is first trained on a sibling problem (same keys, one more absorbing state)
                 sched.fire('F5_object_reuse')
@@ -312,6 +346,7 @@ def shrink(case):
         ('cfg', 'episodes'): [1, 2, 3],
         ('cfg', 'reentrant'): [False],
         ('cfg', 'reuse'): [None],
+        ('cfg', 'model_update'): [False],
         ('cfg', 'rand_choose'): [0],
         ('cfg', 'softmax_temp'): [0.0],
         ('cfg', 'step_size'): [1.0, 0.5],
